@@ -321,6 +321,19 @@ Definition read_all (h : heap) (l : list slice) : list bytes := map (rd h) l.
 (* the shape of the mutant "copy(newInput.Witness, input.Witness)": slice HEADERS are copied *)
 Definition shallow_copy_all (h : heap) (l : list slice) : heap * list slice := (h, l).
 
+(* ---------- taproot.TweakTaprootPrivKey ---------- *)
+(* privKeyScalar := privKey.Key copies the 32-byte scalar VALUE; Negate() and Add() then work in
+   place on that copy.  The arithmetic is the model of C16 (Model/Taproot.v tweak_priv); here only
+   the write pattern: `result` (the scalar after negate/add) is stored into the working scalar. *)
+Definition tweak_priv_writes (h : heap) (key : slice) (result : bytes) : heap * slice :=
+  let '(h1, work) := copy_bytes h key in
+  let '(h2, r) := go_lit h1 result in
+  let '(h3, _) := go_copy h2 work r in (h3, work).
+(* before fefe606: privKeyScalar := &privKey.Key, the in-place operations hit the caller's key *)
+Definition tweak_priv_writes_prefix (h : heap) (key : slice) (result : bytes) : heap * slice :=
+  let '(h1, r) := go_lit h result in
+  let '(h2, _) := go_copy h1 key r in (h2, key).
+
 (* ---------- package-level values ---------- *)
 (* every exported package-level var of slice / array / struct-with-array type in the
    non-test packages of the library; in the model they are arrays of the initial heap *)
